@@ -375,6 +375,34 @@ func statusEnc(r *types.Receipt) []byte {
 	return r.PostState
 }
 
+var errStale = fmt.Errorf("stale accessor mirror")
+
+// abstractFields reads a mirror value (struct: fields by POSITION among the exported, non-ignored ones) along the wire schema.
+func abstractFields(v reflect.Value, s *Sch) (*Val, error) {
+	if s.K != "struct" || v.Kind() != reflect.Struct {
+		return abstract(v, s)
+	}
+	out := vlist()
+	k := 0
+	t := v.Type()
+	for i := 0; i < t.NumField() && k < len(s.Fields); i++ {
+		f := t.Field(i)
+		if f.PkgPath != "" || f.Tag.Get("rlp") == "-" {
+			continue
+		}
+		x, err := abstract(v.Field(i), s.Fields[k])
+		if err != nil {
+			return nil, fmt.Errorf(".%s: %w", f.Name, err)
+		}
+		out.L = append(out.L, x)
+		k++
+	}
+	if k != len(s.Fields) {
+		return nil, errStale
+	}
+	return out, nil
+}
+
 // abstract maps a Go value to the model value along the schema. nil *big.Int / nil slices are the zero value
 // (that is what the encoder writes); nil pointers outside rlp:"nil" are not values of the model (error).
 func abstract(v reflect.Value, s *Sch) (*Val, error) {
@@ -421,7 +449,7 @@ func abstract(v reflect.Value, s *Sch) (*Val, error) {
 		for i, name := range s.Names {
 			x, err := abstract(v.FieldByName(name), s.Fields[i])
 			if err != nil {
-				return nil, fmt.Errorf(".%s: %v", name, err)
+				return nil, fmt.Errorf(".%s: %w", name, err)
 			}
 			out.L = append(out.L, x)
 		}
@@ -450,11 +478,14 @@ func abstract(v reflect.Value, s *Sch) (*Val, error) {
 		}
 		return &Val{K: 'S', Of: x}, nil
 	case "custom":
+		if s.Stale {
+			return nil, errStale
+		}
 		m, err := mirrorOf(v)
 		if err != nil {
 			return nil, err
 		}
-		return abstract(reflect.ValueOf(m).Elem(), s.Elem)
+		return abstractFields(reflect.ValueOf(m).Elem(), s.Elem)
 	}
 	return nil, fmt.Errorf("bad schema kind %s", s.K)
 }
